@@ -364,7 +364,7 @@ class PyChoice:
         out = []
         for g, v in alts:
             for i, (g2, v2) in enumerate(out):
-                if v2 is v or (type(v2) is type(v) and isinstance(v, (str, int, bytes, tuple, type(None))) and v2 == v):
+                if v2 is v or (type(v2) is type(v) and isinstance(v, (str, int, bytes, tuple, type(None), np.dtype)) and v2 == v):
                     out[i] = (lor(g2, g), v2)
                     break
             else:
@@ -376,7 +376,7 @@ class PyChoice:
 
 
 def _choiceable(x):
-    if isinstance(x, PyChoice) or x is None or isinstance(x, (str, bytes, tuple)):
+    if isinstance(x, PyChoice) or x is None or isinstance(x, (str, bytes, tuple, np.dtype)):
         return True
     if isinstance(x, SymSeq) and ((x.writable and x.pytype == 'ndarray') or not x.writable):
         return True
